@@ -97,6 +97,9 @@ def run_e2(tier, seed):
         for line in open(f):
             line = line.strip()
             if line and not line.startswith("#"):
+                # histories of the generic builder (closes 4 / 5) are replayed with the native append strategies:
+                # the generator needs native datum details
+                line = re.sub(r"\bC:4\b", "C:2", re.sub(r"\bC:5\b", "C:3", line))
                 # the generator needs a built definition: close what is pending
                 if not re.search(r"C:\d$", line):
                     line += " C:0"
